@@ -580,3 +580,17 @@ def summarized(fn):
     wrapper.__name__ = getattr(fn, "__name__", "summarized")
     wrapper._sx_summarized = True
     return wrapper
+
+
+def describe(obj):
+    """Printable form of a (partly symbolic) value: symbolic leaves shown as
+    their solver terms.  Never concretises."""
+    if isinstance(obj, dict):
+        return "{" + ", ".join("%r: %s" % (k, describe(v)) for k, v in obj.items()) + "}"
+    if isinstance(obj, (list, tuple)):
+        return "[" + ", ".join(describe(v) for v in obj) + "]"
+    if isinstance(obj, SymScalar):
+        return "<sym %s>" % obj.v
+    if isinstance(obj, (SymInt, SymBool, SymToken)):
+        return "<sym %s>" % obj.e
+    return repr(obj)
